@@ -34,18 +34,9 @@ Fixpoint flat (p : bool) (ks : list N) : list N :=
       else if is_printable k then k :: flat false r else flat false r
   end.
 
-(* no typed printable key arrives while the line holds exactly maxLineLength runes *)
-Fixpoint fits (t : term) (lip : bool) (ks : list N) : bool :=
-  match ks with
-  | [] => true
-  | k :: r =>
-      (paste t || negb (is_printable k) || negb (Nat.eqb (length (line t)) maxLineLength)) &&
-      match process_key t lip k with
-      | PStop _ => true
-      | PCont t' lip' => fits t' lip' r
-      | PLine _ _ t' => fits t' (paste t') r
-      end
-  end.
+(* (until /repo removed it, handleKey dropped a typed printable key silently while the line held
+   exactly 4096 runes - maxLineLength, inherited from x/term - and the theorems carried a hypothesis
+   `fits` excluding that; a typed statement longer than that was submitted altered) *)
 
 Definition all_lines (os : list rl_out) : bool := negb (existsb is_stop os).
 
@@ -195,7 +186,6 @@ Definition hyps_hold (c : ccase) : bool :=
   | None => true
   | Some (us, pcs) =>
       forallb wf_unit us && list_N_eqb (concat (map snd pcs)) (script_keys us) &&
-      fits init_term false (final_enter pcs) &&
       list_N_eqb (concat (c_chunks c)) (encode_keys (final_enter pcs))
   end.
 
